@@ -193,6 +193,22 @@ func tryReplay(cfg *runCfg, g *Gen, o *Obligation, dir string) (bool, string) {
 	if os.Getenv("VERIF_NO_REPLAY") != "" {
 		return false, "replay: disabled\n"
 	}
+	if o.fx != nil && o.fx.sweep {
+		// a swept function was analysed under no precondition: a state that makes it fail need not be
+		// reachable, so only a failing run found at the level of the property counts
+		switch g.pkgShort(o.fx.fn) {
+		case "idl":
+			if cfg.prop == "C05" || cfg.prop == "C06" || cfg.prop == "C09" {
+				return idlSearch(cfg, o, dir)
+			}
+			return false, "replay: swept function; no property-level driver for this property\n"
+		case "varlink", "ctxio":
+			return varlinkE2E(cfg, o, dir)
+		case "generator":
+			return generatorBounded(cfg, o, dir)
+		}
+		return false, "replay: swept function; no property-level driver\n"
+	}
 	switch g.pkgShort(o.fx.fn) {
 	case "idl":
 		return replayIDL(cfg, g, o, dir)
@@ -338,6 +354,9 @@ func varlinkE2E(cfg *runCfg, o *Obligation, dir string) (bool, string) {
 			// concurrent use of the service API and of client connections under the race detector
 			name = "varlink_race_test.go.tmpl"
 			race = true
+		case "C20":
+			// socket-activation environments (the test binary re-executes itself with inherited descriptors)
+			name = "varlink_activation_test.go.tmpl"
 		case "C14", "C15", "C17", "C18", "C19":
 			// lifecycle / cancellation / address scenarios (oracles from C14, C15, C17, C18, C19)
 			name = "varlink_lifecycle_test.go.tmpl"
